@@ -64,7 +64,8 @@ def stream_params(stream: str, i: int, rng: random.Random) -> dict:
                 "job": {"nc": bool((i // 4) % 2), "tsp": "code", "tsw": "warn"}}
     if stream == "doc":
         # docstring-heavy packages: parameter and result types in the docstrings, named and unnamed result entries
-        return {"gen": {"style": ["numpydoc", "numpydoc", "google", "rest"][i % 4], "doc_types": True, "nmods": 2, "keywords": False},
+        return {"gen": {"style": ["numpydoc", "numpydoc", "google", "rest"][i % 4], "doc_types": True, "nmods": 2, "keywords": False,
+                        "result_name_grid": i % 4 == 0},
                 "job": {"nc": False, "tsp": "code", "tsw": "warn"}}
     raise ValueError(stream)
 
